@@ -6,10 +6,14 @@ from core import enc
 import gens
 
 SCHEMES = ["http", "https", "ws", "wss", "ftp", "file", "mailto", "", "HTTP", "hTTps", "a+b.c", "x", "git+ssh", "1a", "svn"]
-USERS = [None, "", "user", "u%20s", "us er", "u:s", "ü", "%41", "a@b", "%", "u%2", "U", "%FF", "%C3%28", "%e2%82", "u%2fv"]
-PASSWORDS = [None, "", "pw", "p%40w", "p:w", "p@w", "p w", "ä", "%zz", "%FF", "%C3%28", "%E2%82", "%80x", "p%3aw"]
+USERS = [None, "", "user", "u%20s", "us er", "u:s", "ü", "%41", "a@b", "%", "u%2", "U", "%FF", "%C3%28", "%e2%82", "u%2fv", "\udc80", "u\udc80", "\ud800\udfff"]
+PASSWORDS = [None, "", "pw", "p%40w", "p:w", "p@w", "p w", "ä", "%zz", "%FF", "%C3%28", "%E2%82", "%80x", "p%3aw", "\udc80", "p\udc80"]
 REGNAMES = ["h", "example.com", "EXAMPLE.com", "a-b.c_d~e", "h.", "h..", "xn--tda.com", "a!$&'()*+,;=b", "sub.Example.ORG",
-            "1.2.3", "256.1.1.1", "01.2.3.4", "1.2.3.4.", "a%20b", "a%2fb", "localhost"]
+            "1.2.3", "256.1.1.1", "01.2.3.4", "1.2.3.4.", "a%20b", "a%2fb", "localhost",
+            # look-alikes of the special host syntaxes (IPvFuture, IPv4, hex groups) that are ordinary registered names
+            "v1.example.com", "vc.ru", "vf.io", "v6.example.net", "fe80.example", "dead.beef", "1.2.3.example", "0x7f.1", "h1", "v1.a.b",
+            # percent-encoded octets inside a registered name, in either hex case
+            "ex%2Fample.com", "a%3Ab", "%C3%BC.example", "x%aBy", "ex%2fample.com", "%41.com"]
 IPV4 = ["127.0.0.1", "1.2.3.4", "255.255.255.255", "0.0.0.0"]
 IPV6 = ["::1", "::", "2001:db8::1", "2001:DB8:0:0:0:0:0:1", "1:2:3:4:5:6:7:8", "::ffff:1.2.3.4", "fe80::1%eth0", "fe80::1%25eth0",
         "1::", "0:0:0:0:0:0:0:0", "1:0:0:2:0:0:0:3", "::1:2:3:4:5:6:7", "1:2:3:4:5:6:7::", "2001:db8::", "0:0:1::", "::0:0:1",
